@@ -243,6 +243,23 @@ def run_history(work, v, descriptors, tier):
                 curfmt = fmt
             shutil.rmtree(cwd, ignore_errors=True)
             emit("cycle/aa", "ok" if ok else "failed", hashlib.sha1(cur).hexdigest()[:16], "translate ; reformat " + " -> ".join(ch))
+        # ... and on a protein alignment whose FIRST row is written with letters that are nucleotide codes too: what a
+        # reader decides from the first row alone (alphabet, hence the datatype of a Nexus header) must not change the data
+        aa2 = b">p0\nMKTAYGHSVW\n>p1\nMKTEYGLSVW\n>p2\nMQTAYGHPVF\n"
+        open(os.path.join(ind, "aa2.fa"), "wb").write(aa2)
+        rc, canon2, _ = run_cli(binary, ["reformat", "fasta", "-i", "aa2.fa"], ind)
+        emit("cycle/aa2", "ok" if rc == 0 else "failed", hashlib.sha1(canon2).hexdigest()[:16], "reformat fasta -i aa2.fa")
+        for ch in chains + [["clustal", "nexus", "fasta"], ["clustal", "clustal", "fasta"], ["nexus", "clustal", "nexus", "fasta"]]:
+            cur, curfmt, ok = canon2, "fasta", True
+            cwd = work.fresh("cyc", "")
+            os.makedirs(cwd)
+            for fmt in ch:
+                open(os.path.join(cwd, "cur"), "wb").write(cur)
+                rc, cur, _ = run_cli(binary, ["reformat", fmt, "-i", "cur"] + flag[curfmt], cwd)
+                ok = ok and rc == 0
+                curfmt = fmt
+            shutil.rmtree(cwd, ignore_errors=True)
+            emit("cycle/aa2", "ok" if ok else "failed", hashlib.sha1(cur).hexdigest()[:16], "aa2.fa ; reformat " + " -> ".join(ch))
         for ch in chains:
             cur, curfmt, ok = canon, "fasta", True
             cwd = work.fresh("cyc", "")
